@@ -1,0 +1,17 @@
+//go:build verif
+
+package iso39794
+
+// Contracts for gvc (contract-based deductive verification, see /verif/DESIGN.md).
+// Comment-only file, compiled only under the build tag "verif".
+
+// ISO/IEC 39794-5 face image data is parsed with encoding/asn1 (outside the modelled subset). Trusted boundary.
+//@ func ProcessISO39794p5
+//@   trusted
+//@   ensures (result1 == nil) == (result0 != nil)
+//@   ensures fresh(result0)
+//@   assigns nothing
+//@ func (ap ISO39794_5_AP) Images
+//@   trusted
+//@   ensures fresh(result)
+//@   assigns nothing
